@@ -109,6 +109,7 @@ def sem_check(ctx, P, variants, level="model_checking", timeout=60, extra_cov=No
                 sig["error"] = r["error"]
                 sig["site"] = r.get("site", "")
                 sig["chain"] = r.get("chain", "")
+            sig.update(semcheck.triggers(p))
             if sig_extra:
                 sig.update(sig_extra(p, j, r, vn))
             ctx.violation(sig, "[%s] %s\n%s" % (vn, detail, kw.get("text", "")),
@@ -161,6 +162,49 @@ def sem_replay(ctx, path):
         sig = {"clause": clause, "variant": case["variant"].split("#")[0]}
         if r.get("error"):
             sig.update({"error": r["error"], "site": r.get("site", ""), "chain": r.get("chain", "")})
+        sig.update(semcheck.triggers(p))
         ctx.violation(sig, detail, case)
     ctx.write_evidence("model_checking", {"evaluations": 1, "distinct_nontrivial": 0, "rule": "replay of one case",
                                           "samples": [case["kwargs"].get("text", "")]})
+
+
+def relational(ctx, P, J, per_prog_runs, base="default", clause="variant-disagrees", tol=1e-9, same_instances=True):
+    """Compare every variant run with the base variant of the same program: same outcome class (answered / same
+    error class), same reported instances, same probabilities."""
+    n = 0
+    for i, runs in per_prog_runs.items():
+        b = [r for (vn, kw, r) in runs if vn == base]
+        if not b:
+            continue
+        b = b[0]
+        if b.get("inconclusive"):
+            continue
+        for (vn, kw, r) in runs:
+            if vn == base or r.get("inconclusive"):
+                continue
+            n += 1
+            diff = None
+            if (b.get("error") or None) != (r.get("error") or None):
+                diff = "outcome differs: %s gives %s, %s gives %s" % (
+                    base, b.get("error") or "answers", vn, r.get("error") or "answers")
+            elif not b.get("error"):
+                ba, ra = b["answers"], r["answers"]
+                for k in set(ba) | set(ra):
+                    if k not in ba or k not in ra:
+                        if same_instances and abs(ba.get(k, ra.get(k))) > tol:
+                            diff = "instance %s reported by only one of %s/%s" % (k, base, vn)
+                            break
+                        continue
+                    if abs(ba[k] - ra[k]) > tol + tol * abs(ba[k]):
+                        diff = "%s: %s gives %r, %s gives %r" % (k, base, ba[k], vn, ra[k])
+                        break
+            if diff:
+                er = r if r.get("error") else b
+                sig = {"clause": clause, "variant": vn.split("#")[0]}
+                if er.get("error"):
+                    sig.update({"error": er["error"], "site": er.get("site", ""), "chain": er.get("chain", "")})
+                sig.update(semcheck.triggers(P[i]))
+                ctx.violation(sig, "%s\n%s" % (diff, kw.get("text", "")),
+                              {"kind": "rel", "program": P[i], "variant": vn, "kwargs": kw, "base_kwargs":
+                               [k2 for (v2, k2, r2) in runs if v2 == base][0], "run": r, "base_run": b})
+    return n
